@@ -267,6 +267,51 @@ func (c *Comparer) field(v reflect.Value, n *Node, fi int, f Field, path string)
 		if fv.Bool() != b {
 			c.add(fp, "value", "%v, want %v", fv.Bool(), b)
 		}
+	case FCapt, FCaptP, FText:
+		want, any := "", false
+		for _, e := range evs {
+			if len(e.Vals) == 0 {
+				continue
+			}
+			any = true
+			if f.Kind == FText {
+				for _, v := range e.Vals {
+					want += "<" + v + ">"
+				}
+			} else {
+				want += CapCall(e.Vals)
+			}
+		}
+		if f.Kind == FCaptP {
+			if fv.IsNil() {
+				if any {
+					c.add(fp, "nil", "nil pointer, want calls %q", want)
+				}
+				return
+			}
+			if len(evs) == 0 {
+				c.add(fp, "value", "pointer set although no accepted capture wrote the field")
+				return
+			}
+			fv = fv.Elem()
+		}
+		if got := fv.Field(0).String(); got != want {
+			c.add(fp, "value", "user-implemented capture saw %q, want %q", got, want)
+		}
+	case FCapts:
+		var want []string
+		for _, e := range evs {
+			for _, v := range e.Vals {
+				want = append(want, CapCall([]string{v}))
+			}
+		}
+		var got []string
+		for i := 0; i < fv.Len(); i++ {
+			got = append(got, fv.Index(i).Field(0).String())
+		}
+		if len(got) != len(want) || strings.Join(got, "\x00") != strings.Join(want, "\x00") {
+			c.add(fp, "value", "user-implemented captures saw %q, want %q", got, want)
+		}
 	case FPars, FParsV, FParss:
 		var want []string
 		for _, e := range evs {
@@ -440,6 +485,43 @@ func (c *Comparer) Leaks(v reflect.Value, n *Node, uni int, path string) {
 			}
 			if fv.Bool() && !b {
 				c.add(fp, "leak", "true although no accepted capture carried a value")
+			}
+		case FCapt, FCaptP, FText:
+			if f.Kind == FCaptP {
+				if fv.IsNil() {
+					continue
+				}
+				fv = fv.Elem()
+			}
+			var calls []string
+			for _, e := range evs {
+				if len(e.Vals) == 0 {
+					continue
+				}
+				if f.Kind == FText {
+					for _, v := range e.Vals {
+						calls = append(calls, "<"+v+">")
+					}
+				} else {
+					calls = append(calls, CapCall(e.Vals))
+				}
+			}
+			if got := fv.Field(0).String(); !subseqConcat(got, calls) {
+				c.add(fp, "leak", "user-implemented capture saw %q, which is not made of the accepted captures %q", got, calls)
+			}
+		case FCapts:
+			var calls []string
+			for _, e := range evs {
+				for _, v := range e.Vals {
+					calls = append(calls, CapCall([]string{v}))
+				}
+			}
+			var got []string
+			for i := 0; i < fv.Len(); i++ {
+				got = append(got, fv.Index(i).Field(0).String())
+			}
+			if !subseq(got, calls) {
+				c.add(fp, "leak", "user-implemented captures saw %q, not all of them accepted captures %q", got, calls)
 			}
 		case FPars, FParsV, FParss:
 			var vals []string
